@@ -269,6 +269,12 @@ class Ctx:
             if hooks:
                 env["RUSTFLAGS"] = f"--cfg {GUARD}"
                 env["CARGO_TARGET_DIR"] += "-hooks"
+            if os.environ.get("VERIF_COV"):
+                # bin/coverage: source-based coverage of /repo under the harness runs of a check (measurement of the
+                # generators, not part of any verdict); needs the nightly toolchain's llvm-tools
+                cmd.insert(1, "+nightly")
+                env["RUSTFLAGS"] = (env.get("RUSTFLAGS", "") + " -C instrument-coverage").strip()
+                env["CARGO_TARGET_DIR"] += "-cov"
             rc, out, dt = sh(cmd, cwd=h, timeout=timeout, env=env)
         if rc != 0:
             errs = "\n".join(l for l in out.split("\n") if l.startswith("error"))[:600]
